@@ -314,6 +314,7 @@ func runRL(toks []string, scale int) (string, error) {
 	ctx, cancel := context.WithCancel(context.Background())
 	defer cancel()
 	var r *security.RateLimiter
+	held := map[string][]*security.TokenBucket{}
 	return runTimeline(evs, scale, func(tl *timeline, e event) string {
 		if r == nil && toks[0] == "default" {
 			r = security.NewRateLimiter(nil, nil, ctx)
@@ -327,6 +328,23 @@ func runRL(toks []string, scale int) (string, error) {
 			return b2s(r.AllowIP(ipStr(atoi(e.ps[1]))))
 		case "c":
 			r.VerifCleanup()
+		case "lk":
+			// first section of allow(): the lookup under the table's read lock (hit only — the create
+			// section cannot be run by itself; overlapping first contacts are the race2 cases)
+			b := r.VerifBucket(ipStr(atoi(e.ps[1])))
+			if b == nil {
+				panic("lk on an address without a bucket")
+			}
+			held[e.ps[1]] = append(held[e.ps[1]], b)
+		case "tk":
+			// last section of allow(): Take on the bucket the call is holding
+			hs, i := held[e.ps[1]], atoi(e.ps[2])
+			if i >= len(hs) {
+				panic("tk without a call in flight")
+			}
+			b := hs[i]
+			held[e.ps[1]] = append(append([]*security.TokenBucket{}, hs[:i]...), hs[i+1:]...)
+			return b2s(b.Take(1))
 		default:
 			panic("unsupported limiter event " + e.ps[0])
 		}
@@ -684,14 +702,19 @@ func main() {
 	out := common.NewOut()
 	var timelineJobs []job
 	for _, j := range jobs {
-		if strings.HasPrefix(j.c, "race ") {
+		if strings.HasPrefix(j.c, "race ") || strings.HasPrefix(j.c, "race2 ") {
 			func() {
 				defer func() {
 					if r := recover(); r != nil {
 						out.Case(j.key+j.c, "panic "+strings.ReplaceAll(fmt.Sprint(r), "\n", " "), "")
 					}
 				}()
-				obs := runRace(strings.Fields(j.c)[1:], out)
+				var obs string
+				if strings.HasPrefix(j.c, "race2 ") {
+					obs = runRace2(strings.Fields(j.c)[1:], out)
+				} else {
+					obs = runRace(strings.Fields(j.c)[1:], out)
+				}
 				out.Count("kind:race")
 				out.Case(j.key+j.c, obs, j.c)
 			}()
